@@ -358,13 +358,21 @@ func (repo *BlockRepository) Revert(ctx context.Context, height int) error {
 		return errors.New(fmt.Sprintf("Revert height %d above current height %d", height, repo.height))
 	}
 
-	// Revert heights map
+	// The newest file might not be saved, or only partly saved. Save it so the files reflect the
+	// current state before they are removed or truncated.
+	if err := repo.save(ctx); err != nil {
+		return errors.Wrap(err, "Failed to save before revert")
+	}
+
+	// Collect the hashes to remove from the heights map. They are only removed after the files
+	// are reverted so a failed revert leaves the heights map unchanged.
+	removedHashes := make([]bitcoin.Hash32, 0, repo.height-height)
 	for removeHeight := repo.height; removeHeight > height; removeHeight-- {
 		hash, err := repo.getHash(ctx, removeHeight)
 		if err != nil {
 			return errors.Wrap(err, "Failed to revert block heights map")
 		}
-		delete(repo.heights, *hash)
+		removedHashes = append(removedHashes, *hash)
 	}
 
 	// Height of last block of latest full file
@@ -397,7 +405,7 @@ func (repo *BlockRepository) Revert(ctx context.Context, height int) error {
 	}
 
 	// Cache needs to be reset with last file's state.
-	repo.lastHeaders = make([]wire.BlockHeader, 0, blocksPerKey)
+	lastHeaders := make([]wire.BlockHeader, 0, blocksPerKey)
 	buf := bytes.NewBuffer(data)
 	header := wire.BlockHeader{}
 	for buf.Len() > 0 {
@@ -405,9 +413,13 @@ func (repo *BlockRepository) Revert(ctx context.Context, height int) error {
 		if err != nil {
 			return errors.Wrap(err, fmt.Sprintf("Failed to parse latest block data during truncate : %s", path))
 		}
-		repo.lastHeaders = append(repo.lastHeaders, header)
+		lastHeaders = append(lastHeaders, header)
 	}
+	repo.lastHeaders = lastHeaders
 	repo.height = height
+	for _, hash := range removedHashes {
+		delete(repo.heights, hash)
+	}
 	return nil
 }
 
